@@ -44,6 +44,13 @@ import (
 //            a firewall / NAT / proxy in between dropping the flow): the lookupd's listings for
 //            it are gone at once and from now on EVERY write and read nsqd attempts on that
 //            connection fails - until nsqd closes it and dials again, nothing reaches the lookupd
+//   stall    (not a budgeted fault: a state of the lookupd, verifLookupd.stall) the lookupd keeps
+//            accepting connections and swallowing what nsqd writes but answers nothing - a hung or
+//            SIGSTOPped process, a black-holed route, a half-open connection. Like a real socket, a
+//            Read on such a connection blocks FOREVER unless a read deadline has been set on it
+//            (SetReadDeadline / SetDeadline with a non-zero time), in which case it fails with a
+//            timeout error (the symbolic run has no duration: the deadline expires at once; natively
+//            it is nsqd's real one-second deadline on a loopback socket that nobody answers).
 // A native replay realises an io fault by handing the real socket an already expired deadline
 // (the replay build reads lookupPeer's time.Now() from verifrt's clock) and "down" by closing
 // the listener; "rst" by closing the lookupd's end with SO_LINGER 0.
@@ -80,6 +87,7 @@ type verifLookupd struct {
 	cmdSeq    int
 	identOK   []byte       // honest IDENTIFY answer
 	pingReply []byte       // if set: raw bytes sent in answer to a PING, then the lookupd hangs up
+	stall     bool         // the lookupd swallows every command and answers nothing (see "stall" above)
 	l         net.Listener // native only
 }
 
@@ -95,6 +103,10 @@ type verifWorld struct {
 	dials    []string
 	mu       sync.Mutex // native only
 	activity int        // native only: bumps on every accept / read / close at a lookupd
+	// noClockPlan: native replay without planned I/O faults - nsqd's deadlines are its real ones
+	// (one second from the real clock) instead of nativeClockPlan's generous 25 s
+	noClockPlan bool
+	never       chan struct{} // symbolic: nobody ever sends here (a read without deadline on a stalled lookupd)
 }
 
 var verifW *verifWorld
@@ -109,7 +121,7 @@ func verifFrame(body []byte) []byte {
 
 // verifNewWorld: nLookupd scripted lookupds and `budget` fault slots.
 func verifNewWorld(nLookupd, budget int) *verifWorld {
-	w := &verifWorld{}
+	w := &verifWorld{never: make(chan struct{})}
 	verifW = w
 	// Native replay: nsqd talks to real loopback listeners and the harness waits for nsqd's real
 	// goroutines itself (rest / nativeSettle / tick are all bounded waits), so no schedule is
@@ -174,7 +186,11 @@ func (w *verifWorld) beginStep() {
 		ld.setDown(w.strikes("down"))
 	}
 	if !verifrt.Symbolic() {
-		w.nativeClockPlan()
+		if w.noClockPlan {
+			verifrt.NativeClock(nil) // (also drops the model's clock readings: the real clock from here on)
+		} else {
+			w.nativeClockPlan()
+		}
 	}
 }
 
@@ -475,6 +491,9 @@ func (s *verifLSession) respond(cmd verifLCmd) {
 	ld.cmdSeq++
 	s.cmds = append(s.cmds, cmd)
 	_ = seq
+	if ld.stall {
+		return // swallowed: no answer, and the connection stays open
+	}
 	if ld.w.strikes("reply") {
 		switch verifrt.Choice("reply.kind", 4) {
 		case 0:
@@ -553,6 +572,7 @@ func (s *verifLSession) alive() bool {
 type verifLConn struct {
 	s      *verifLSession
 	closed bool
+	rdl    bool // a read deadline is set
 }
 
 var errVerifTimeout = errors.New("verif: i/o timeout")
@@ -588,7 +608,12 @@ func (c *verifLConn) Read(p []byte) (int, error) {
 	if c.s.srvEOF {
 		return 0, io.EOF
 	}
-	return 0, errVerifTimeout // nothing to read and the lookupd is silent: the deadline expires
+	// nothing to read and the lookupd is silent: the read ends when its deadline expires -
+	// without a deadline it never ends
+	if !c.rdl {
+		<-c.s.ld.w.never
+	}
+	return 0, errVerifTimeout
 }
 
 func (c *verifLConn) Write(p []byte) (int, error) {
@@ -612,8 +637,8 @@ func (c *verifLConn) Close() error {
 }
 func (c *verifLConn) LocalAddr() net.Addr                { return verifAddr{} }
 func (c *verifLConn) RemoteAddr() net.Addr               { return verifAddr{} }
-func (c *verifLConn) SetDeadline(t time.Time) error      { return nil }
-func (c *verifLConn) SetReadDeadline(t time.Time) error  { return nil }
+func (c *verifLConn) SetDeadline(t time.Time) error      { c.rdl = !t.IsZero(); return nil }
+func (c *verifLConn) SetReadDeadline(t time.Time) error  { c.rdl = !t.IsZero(); return nil }
 func (c *verifLConn) SetWriteDeadline(t time.Time) error { return nil }
 
 // ------------------------------------------------------------------ stubs for nsqd's helpers
